@@ -19,6 +19,7 @@ import (
 	"sort"
 	"strconv"
 	"strings"
+	"sync"
 	ttemplate "text/template"
 	"time"
 
@@ -323,6 +324,48 @@ var Scenarios = map[string]scenario{
 		}
 		runLift(lg, "json.Unmarshal", "maperr", in, rojson.Unmarshal[payload](), func(b []byte) (payload, error) { var p payload; err := json.Unmarshal(b, &p); return p, err })
 	},
+	"json.Marshal.ptrmethods": func(lg *rec.Log, r *rand.Rand) {
+		// a type with (and a type containing by value a type with) marshalling methods on POINTER receivers: json.Marshal(item) does not use them
+		in := []reading{{Sensor: "a", T: temp(21.5)}, {Sensor: "b", T: temp(-3)}, {Sensor: "", T: temp(0)}}
+		runLift(lg, "json.Marshal(pointer-receiver methods)", "maperr", in, rojson.Marshal[reading](), func(p reading) ([]byte, error) { return json.Marshal(p) })
+	},
+	"gob.Encode.shared": func(lg *rec.Log, r *rand.Rand) {
+		// ONE operator value subscribed from two goroutines at the same time, each over its own items; every output must still be gob(item)
+		in := &interner{ids: map[string]int{}}
+		lg.Add(rec.Ev{E: "hdr", S: "gob.Encode (one operator value, two concurrent subscriptions)", K: "roundtrip"})
+		op := rogob.Encode[slowItem]()
+		var wg sync.WaitGroup
+		type res struct {
+			items []slowItem
+			outs  [][]byte
+			err   error
+		}
+		rs := make([]res, 2)
+		for g := 0; g < 2; g++ {
+			g := g
+			for j := 0; j < 4; j++ {
+				rs[g].items = append(rs[g].items, slowItem{ID: 100*g + j, Name: strings.Repeat(string(rune('a'+g)), 5+j)})
+			}
+			wg.Add(1)
+			go func() {
+				defer wg.Done()
+				rs[g].outs, rs[g].err = ro.Collect(op(ro.FromSlice(rs[g].items)))
+			}()
+		}
+		wg.Wait()
+		ok := true
+		for g := range rs {
+			ok = ok && rs[g].err == nil && len(rs[g].outs) == len(rs[g].items)
+			for j := 0; j < len(rs[g].outs) && j < len(rs[g].items); j++ {
+				var buf bytes.Buffer
+				_ = gob.NewEncoder(&buf).Encode(rs[g].items[j])
+				lg.Add(rec.Ev{E: "rt", V: in.id(buf.Bytes()), I: in.id(rs[g].outs[j])})
+			}
+		}
+		lg.Add(rec.Ev{E: "out", K: map[bool]string{true: "C", false: "E"}[ok]})
+		lg.Add(rec.Ev{E: "torn"})
+		lg.Add(rec.Ev{E: "end"})
+	},
 	"gob.roundtrip": func(lg *rec.Log, r *rand.Rand) {
 		in := &interner{ids: map[string]int{}}
 		lg.Add(rec.Ev{E: "hdr", S: "gob.Encode|Decode", K: "roundtrip"})
@@ -468,6 +511,31 @@ var Scenarios = map[string]scenario{
 		lg.Add(rec.Ev{E: "torn"})
 		lg.Add(rec.Ev{E: "end"})
 	},
+}
+
+type temp float64
+
+func (t *temp) MarshalJSON() ([]byte, error) { return []byte(fmt.Sprintf("\"%.1fC\"", float64(*t))), nil }
+
+type reading struct {
+	Sensor string
+	T      temp
+}
+
+// slowItem encodes slowly (a custom GobEncoder that yields), so that two concurrent encodings overlap
+type slowItem struct {
+	ID   int
+	Name string
+}
+
+func (s slowItem) GobEncode() ([]byte, error) {
+	time.Sleep(150 * time.Microsecond)
+	return []byte(fmt.Sprintf("%d|%s", s.ID, s.Name)), nil
+}
+
+func (s *slowItem) GobDecode(b []byte) error {
+	_, err := fmt.Sscanf(string(b), "%d|%s", &s.ID, &s.Name)
+	return err
 }
 
 type slowReader struct {
